@@ -163,12 +163,9 @@ def run_sequences(ctx, nseq):
         if c['ops']:
             cases.append(c)
             exps.append(e)
-    results = []
-    for ch in chunked(cases, 250):
-        r_ = NUM.safe_run(ctx, 'seqs', ch)
-        if r_ is None:
-            return
-        results += r_
+    results = yield ('seqs', cases)
+    if results is None:
+        return
     coq_cases = []     # (text triple, replay)
     nfail = 0
     skipped_inexact = 0
@@ -206,29 +203,29 @@ def run_sequences(ctx, nseq):
     ctx.cov['input_distribution']['steps_not_exactly_representable'] = skipped_inexact
     chunks = chunked(coq_cases, 150)
     files = [('C18_steps_%03d' % n, CQ.step_file([x[0] for x in ch])) for n, ch in enumerate(chunks)]
-    dis = []
     # self-test of the differ: cases whose expected result is deliberately wrong must all be flagged
     st = [x for x in coq_cases if x[0][2].startswith('(Ca') or x[0][2].startswith('(Tu')][:8]
     if st:
-        wrong = [(o, a, '(Ca [M 1 1 [[7%Z]]])' if k % 2 else '(Er TypeError)') for k, ((o, a, e), _, _, _) in enumerate(st)]
-        ok, out = ctx.coq_eval('C18_selftest', CQ.step_file(wrong))
-        ctx.obligations += 1
-        if ok and parse_coq_list_of_nat(out) == list(range(len(wrong))):
-            ctx.discharged += 1
-        else:
-            ctx.broken.append('self-test of the step differ failed: perturbed cases not flagged: ' + out[-300:])
-    run_coq_files(ctx, files, chunks, 'step', dis)
-    for what, (cc, replay, sig, bad) in dis:
-        if bad:
-            continue     # already reported above with this input as a failure of the property itself
-        if sum(1 for b in ctx.broken if b.startswith('correspondence')) >= 6:
-            break
-        ctx.broken.append('correspondence C18 model<->impl differs on step %s' % sig)
-        ctx.report('tie:step:%s' % sig,
-                   'model and implementation disagree on %s%s' % (sig, (': ' + bad[1]) if bad else
-                   ' (the expansion still commutes on this input: representation or error class changed)'),
-                   dict(replay, coq_case=list(cc)), found_input=bool(bad))
-    ctx.cov['disagreements_checked'] += len(dis)
+        wrong = [((o, a, '(Ca [M 1 1 [[7%Z]]])' if k % 2 else '(Er TypeError)'),) for k, ((o, a, e), _, _, _) in enumerate(st)]
+
+        def st_handler(dis, nwrong=len(wrong)):
+            ctx.cov['disagreements_checked'] -= len(dis)
+            if len(dis) != nwrong:
+                ctx.broken.append('self-test of the step differ failed: %d of %d perturbed cases flagged' % (len(dis), nwrong))
+        NUM.defer(ctx, [('C18_selftest', CQ.step_file([w[0] for w in wrong]))], [wrong], st_handler)
+
+    def handler(dis):
+        for (cc, replay, sig, bad) in dis:
+            if bad:
+                continue     # already reported above with this input as a failure of the property itself
+            if sum(1 for b_ in ctx.broken if b_.startswith('correspondence')) >= 6:
+                break
+            ctx.broken.append('correspondence C18 model<->impl differs on step %s' % sig)
+            ctx.report('tie:step:%s' % sig,
+                       'model and implementation disagree on %s (the expansion still commutes on this input: '
+                       'representation or error class changed)' % sig,
+                       dict(replay, coq_case=list(cc)), found_input=False)
+    NUM.defer(ctx, files, chunks, handler)
     if cases:
         ctx.sample({'init': cases[0]['init'], 'ops': cases[0]['ops'], 'impl_last': results[0][-1]})
 
@@ -248,15 +245,35 @@ def run(ctx):
         'harness/props/c18_num.py; SVD/QR are LAPACK (contract checked, not modelled)',
     ]
     import time
-    for name, f, n in (('sequences', run_sequences, 2500 if thorough else 450),
-                       ('index expressions', NUM.run_index_cases, 4000 if thorough else 600),
-                       ('generator', NUM.run_generator_cases, 1500 if thorough else 300),
-                       ('operators', NUM.run_canop_cases, 600 if thorough else 120),
-                       ('cython updates', NUM.run_update_cases, 400 if thorough else 80),
-                       ('numeric', NUM.run_numeric, thorough)):
-        t0 = time.time()
-        f(ctx, n)
-        log('[C18] %s: %.1fs (evaluations so far %d)' % (name, time.time() - t0, ctx.cov['evaluations']))
+    t0 = time.time()
+    sections = [('sequences', run_sequences(ctx, 2500 if thorough else 450)),
+                ('index expressions', NUM.run_index_cases(ctx, 4000 if thorough else 600)),
+                ('generator', NUM.run_generator_cases(ctx, 1500 if thorough else 300)),
+                ('free functions', NUM.run_modek_cases(ctx, 480 if thorough else 120)),
+                ('operators', NUM.run_canop_cases(ctx, 600 if thorough else 120)),
+                ('cython updates', NUM.run_update_cases(ctx, 400 if thorough else 80)),
+                ('numeric', NUM.run_numeric(ctx, thorough))]
+    # every section generates its cases, then ONE driver process runs all of them
+    wanted = [(name, g) + tuple(next(g)) for name, g in sections]
+    payload = {key: cases for (_, _, key, cases) in wanted}
+    log('[C18] generated %s in %.1fs' % ({k: len(v) for k, v in payload.items()}, time.time() - t0))
+    t0 = time.time()
+    try:
+        out = ctx.impl.run(DRIVER, payload, timeout=2400)
+    except Exception as e:  # noqa  -- the interpreter died: find the family and the input
+        log('[C18] combined driver run failed (%s); running the families separately' % str(e)[-200:].replace('\n', ' '))
+        out = {key: NUM.safe_run(ctx, key, cases) for (_, _, key, cases) in wanted}
+    log('[C18] implementation run: %.1fs' % (time.time() - t0))
+    t0 = time.time()
+    for name, g, key, cases in wanted:
+        try:
+            g.send(out.get(key))
+        except StopIteration:
+            pass
+    log('[C18] property evaluated on the implementation: %.1fs (evaluations %d)' % (time.time() - t0, ctx.cov['evaluations']))
+    t0 = time.time()
+    NUM.flush_coq(ctx)
+    log('[C18] model evaluated on the same cases (vm_compute): %.1fs' % (time.time() - t0))
     ctx.cov['rule'] = ('one evaluation = one operation step / index expression / generator access / operator identity / '
                        'approximation run on the implementation; non-trivial = all; distinct by (operation, operands, result)')
     ctx.cov['exhaustive'] = False
